@@ -181,10 +181,27 @@ func runC07(c *ctx) {
 			for mode := 0; mode < 3; mode++ {
 				for _, tw := range []bool{false, true} {
 					for _, nat := range []string{"idle", "eof", "err", "data"} {
-						specs = append(specs, c07Spec{NC: nc, Mode: mode, Twice: tw, HasOp: c.rng.Chance(1, 3), Natural: nat})
-						// erroring Close: with and without an operation / RPC in flight, alternating
+						// (generic and network driver alternate)
 						k++
-						specs = append(specs, c07Spec{NC: nc, Mode: mode, Twice: tw, HasOp: k%2 == 0, CloseErr: true, Natural: nat})
+						specs = append(specs, c07Spec{NC: nc, Net: !nc && k%2 == 1, Mode: mode, Twice: tw, HasOp: c.rng.Chance(1, 3), Natural: nat})
+						// erroring Close: with and without an operation / RPC in flight, alternating
+						specs = append(specs, c07Spec{NC: nc, Net: !nc && k%4 >= 2, Mode: mode, Twice: tw, HasOp: k%2 == 0, CloseErr: true, Natural: nat})
+					}
+				}
+			}
+		}
+		// transports whose IsAlive() follows the peer (false once a Read returned EOF / an error;
+		// false as soon as the peer hung up): all three driver kinds × {idle, peer closed the
+		// stream, read error} × Close once / twice
+		for drv := 0; drv < 3; drv++ {
+			for alive := 1; alive <= 2; alive++ {
+				for _, nat := range []string{"idle", "eof", "err"} {
+					for _, tw := range []bool{false, true} {
+						for mode := 0; mode < 2; mode++ {
+							k++
+							specs = append(specs, c07Spec{NC: drv == 2, Net: drv == 1, Mode: mode, Twice: tw, HasOp: k%3 == 0,
+								CloseErr: k%4 == 0, Alive: alive, Natural: nat})
+						}
 					}
 				}
 			}
@@ -196,8 +213,12 @@ func runC07(c *ctx) {
 		for i := 0; i < n; i++ {
 			nc := c.rng.Bool()
 			hasOp := c.rng.Chance(1, 2)
-			specs = append(specs, c07Spec{NC: nc, Mode: c.rng.Intn(3), Twice: c.rng.Chance(1, 3), HasOp: hasOp,
-				CloseErr: c.rng.Chance(1, 3), Sched: c07GenSched(c.rng, nc, hasOp)})
+			alive := 0
+			if c.rng.Chance(1, 2) {
+				alive = 1 + c.rng.Intn(2)
+			}
+			specs = append(specs, c07Spec{NC: nc, Net: !nc && c.rng.Bool(), Mode: c.rng.Intn(3), Twice: c.rng.Chance(1, 3), HasOp: hasOp,
+				CloseErr: c.rng.Chance(1, 3), Alive: alive, Sched: c07GenSched(c.rng, nc, hasOp)})
 		}
 	}
 
@@ -287,7 +308,13 @@ func runC07(c *ctx) {
 			kind = "natural:" + o.spec.Natural
 		}
 		res.Count("kind:" + kind)
-		res.Count(fmt.Sprintf("cfg:nc=%s,mode=%d,twice=%s,op=%s,cerr=%s", c07b01(o.spec.NC), o.spec.Mode, c07b01(o.spec.Twice), c07b01(o.spec.HasOp), c07b01(o.spec.CloseErr)))
+		drv := "generic"
+		if o.spec.NC {
+			drv = "netconf"
+		} else if o.spec.Net {
+			drv = "network"
+		}
+		res.Count(fmt.Sprintf("cfg:drv=%s,mode=%d,twice=%s,cerr=%s,alive=%d", drv, o.spec.Mode, c07b01(o.spec.Twice), c07b01(o.spec.CloseErr), o.spec.Alive))
 		res.InDomain++
 		key := cas
 		if m := model[i]; m != nil {
@@ -337,7 +364,19 @@ func runC07(c *ctx) {
 			res.Count("outcome:hang")
 			bad = true
 		} else {
-			if f.CloseCalls < 1 {
+			// "the transport is closed": when a Close call returns, the transport implementation's
+			// Close has been called (at least once; the model says exactly once, which the
+			// end-state correspondence below compares)
+			for k := 0; k < want && k < len(f.CallsAtRet); k++ {
+				if f.CallsAtRet[k] < 1 {
+					res.Fail("oracle", cas, fmt.Sprintf("Close call #%d returned (err=%q) but the transport implementation's Close had not been called (%s; IsAlive variant %d); events: %v",
+						k+1, f.CloseErr[k], kind, o.spec.Alive, o.events), fmt.Sprintf("transport-not-closed:close#%d", k+1))
+					res.Count("outcome:transport-not-closed")
+					bad = true
+					break
+				}
+			}
+			if !bad && f.CloseCalls < 1 {
 				res.Fail("oracle", cas, "Close returned but the transport was never closed", "transport-not-closed")
 				bad = true
 			}
